@@ -185,17 +185,76 @@ def build_cases(tier, seed):
     return cases
 
 
+# ---- a script's output is exactly its own text, also right after a script that was stopped mid-line ------
+FIRST = ['print "a" print "b" on all print "c" on all print "d"',
+         'printf "{} {}" 1 2 print 3 on all printf "{}" 4',
+         'print 1 on "A" println 2 print 3 on "A" print 4',
+         'define f with x begin print "in" return x end printf "{} {}" 1 [f 2] print [f 3]']
+SECOND = ['println "c"', 'print 7 print 8', 'printf "{}|" 5 println 6']
+
+
+def sequence_worker(args):
+    """Production output binding, one process: script 1 runs to its end or is stopped before VM step k (choice variable),
+    then script 2 runs: what script 2 writes to stdout is what it writes when it runs alone."""
+    from bardolph.controller.script_job import ScriptJob
+    from checks.c17 import exec_job
+    res = report.WorkResult('output after a stopped script')
+    world.start_function_trace()
+    res.sites.add('after-stop')
+
+    def scenario(i1, i2, stop_at):
+        out = io.StringIO()
+        saved = sys.stdout
+        sys.stdout = out
+        try:
+            bind = lambda net: std_out_output.configure()
+            net = world.configure(output=bind)
+            exec_job(ScriptJob.from_string(SECOND[i2]), net)
+            alone = out.getvalue()
+            out.seek(0); out.truncate()
+            net = world.configure(output=bind)
+            exec_job(ScriptJob.from_string(FIRST[i1]), net, stop_at)
+            first_out = out.getvalue()
+            out.seek(0); out.truncate()
+            exec_job(ScriptJob.from_string(SECOND[i2]), net)
+            return alone, out.getvalue(), first_out
+        finally:
+            sys.stdout = saved
+
+    def harness(ctx):
+        i1 = ctx.choose(len(FIRST), 'first')
+        i2 = ctx.choose(len(SECOND), 'second')
+        k = ctx.choose(args['stops'] + 1, 'stop-at')
+        stop_at = None if k == 0 else k - 1
+        return i1, i2, stop_at, scenario(i1, i2, stop_at)
+    for ctx, out in symx.explore(harness, max_paths=None, timeout_ms=1000, stats=res.stats):
+        if isinstance(out, symx.Abort):
+            continue
+        i1, i2, stop_at, (alone, after, first_out) = out
+        res.nontrivial += 1
+        res.reached.add('after-stop')
+        if alone != after:
+            res.violation('after-stop|output differs', 'the script %r writes %r when run alone, but %r after the script %r %s (which wrote %r)'
+                          % (SECOND[i2], alone, after, FIRST[i1], 'ran to its end' if stop_at is None else 'was stopped before VM step %d' % stop_at, first_out),
+                          inputs={'first': FIRST[i1], 'second': SECOND[i2], 'stop_at': stop_at}, replayed=True)
+    res.sample({'first': FIRST, 'second': SECOND, 'stop_positions': args['stops']})
+    res.functions = world.functions_seen()
+    return res
+
+
 def run(tier, seed):
     t0 = time.time()
     cases = build_cases(tier, seed)
     items = [{'case': c, 'max_paths': 200 if tier == 'quick' else 1000, 'budget_s': 10 if tier == 'quick' else 60} for c in cases]
-    results, skipped = report.run_pool(worker, items, budget_s=common.tier_budget(tier, 60, 600))
+    items.append({'sequence': True, 'stops': 40})
+    results, skipped = report.run_pool(lambda a: sequence_worker(a) if 'sequence' in a else worker(a), items, budget_s=common.tier_budget(tier, 60, 600))
     return report.finish(
         PROP, tier, seed, 'exploration', results, skipped,
         rule='work item = one program of 2..5 output statements (print / println / printf with anonymous, numbered, named, spec and escaped '
              'fields; values of every kind) wrapped in symbolic-condition if/else and loops and interleaved with device commands; the job runs '
              'with the production output binding and sys.stdout replaced by a recording stream; on every feasible path the bytes written, and '
-             'their position relative to device commands, are compared with the text the reference semantics (Python str/str.format) produces',
+             'their position relative to device commands, are compared with the text the reference semantics (Python str/str.format) produces; plus: a script run after '
+             'another one that ended or was stopped before VM step k (every k) writes exactly what it writes when run alone',
         assumptions=common.SCRIPT_ASSUMPTIONS[:3] + [
             'printed values are concrete (their text is the observable); the solver decides the control flow around the output statements',
             'a line break at the very end of the output is accepted either way; printf is always followed by an explicit println in generated programs'],
